@@ -139,6 +139,19 @@ fn check_q(case: &Case, l: &mut Local) -> Verdict {
 fn check_t(case: &Case, l: &mut Local) -> Verdict {
     check_l(case, l, 5)
 }
+fn check_3(case: &Case, l: &mut Local) -> Verdict {
+    check_l(case, l, 3)
+}
+fn gen_flag(src: &mut Src, _t: Tier) -> Case {
+    let v = flag_programs();
+    v[(src.raw() as usize).min(v.len() - 1)].clone()
+}
+/// the flag slice of C01 (all 16 i/m/s x legacy/u combinations), validated on all haystacks over {a, A, LF} up to length 3
+fn flag_programs() -> &'static Vec<Case> {
+    static S: std::sync::OnceLock<Vec<Case>> = std::sync::OnceLock::new();
+    S.get_or_init(|| super::c01::flag_slice().iter().map(|c| Case { x: json!({ "alpha": [0x61, 0x41, 0x0A] }), ..c.clone() }).collect())
+}
+pub static VF: Variant = Variant { name: "exhaustive_flag_slice", choice_len: 1, gen: gen_flag, check: check_3 };
 
 // ---- scanner alignment generator: long filler haystacks, planted occurrences, every alignment
 
@@ -206,7 +219,7 @@ pub static VT: Variant = Variant { name: "prefilter_vs_arbitrary_L5", choice_len
 pub static VS: Variant = Variant { name: "scanner_alignment", choice_len: 300, gen: gen_scan, check: check_scan };
 
 pub fn variants() -> Vec<&'static Variant> {
-    vec![&V, &VT, &VS]
+    vec![&V, &VT, &VS, &VF]
 }
 
 fn small_programs() -> &'static Vec<Case> {
@@ -222,6 +235,8 @@ fn small_programs() -> &'static Vec<Case> {
 pub fn run(ctx: &Ctx) -> i32 {
     // bounded-exhaustive: every pattern of the small grammar of C01, validated on every haystack in {a,b}^<=4
     ctx.run_list(&V, small_programs());
+    let fp: Vec<Case> = flag_programs().iter().enumerate().filter(|(i, _)| ctx.tier == Tier::Thorough || i % 2 == 0).map(|(_, c)| c.clone()).collect();
+    ctx.run_list(&VF, &fp);
     match ctx.tier {
         Tier::Quick => {
             ctx.run_variant(&V, ctx.scale(24_000, 0));
@@ -239,7 +254,7 @@ pub fn run(ctx: &Ctx) -> i32 {
     }
     ctx.finish(
         "translation_validation",
-        "(bounded-exhaustive) all 141k patterns of the small grammar of C01, each validated on ALL haystacks in {a,b}^<=4 from every start; plus generated programs whose beginnings vary (alternations of literals with shared/unshared prefixes and 1-4 byte lead bytes, optional first terms, lookarounds first, case-fold sets with different lead bytes, inverted brackets, ^ under global/scoped m); each compiled program is compared with the same program with StartPredicate::Arbitrary (hook) on EVERY haystack of length <= L over its relevant alphabet from EVERY start, UTF-8 and ASCII entry points; plus a scanner generator (16-80 char filler, planted occurrences, buffer re-sliced at all 8 alignments). Non-trivial = derived predicate is not Arbitrary and some haystack matched.",
+        "(bounded-exhaustive) all 141k patterns of the small grammar of C01, each validated on ALL haystacks in {a,b}^<=4 from every start; the flag slice of C01 (200k pattern/flag combinations over all 16 i,m,s x legacy/u sets; every second one in the quick tier) on ALL haystacks over {a, A, LF} up to length 3 from every start; plus generated programs whose beginnings vary (alternations of literals with shared/unshared prefixes and 1-4 byte lead bytes, optional first terms, lookarounds first, case-fold sets with different lead bytes, inverted brackets, ^ under global/scoped m); each compiled program is compared with the same program with StartPredicate::Arbitrary (hook) on EVERY haystack of length <= L over its relevant alphabet from EVERY start, UTF-8 and ASCII entry points; plus a scanner generator (16-80 char filler, planted occurrences, buffer re-sliced at all 8 alignments). Non-trivial = derived predicate is not Arbitrary and some haystack matched.",
         &["hook: Regex::verif_with_arbitrary_start_predicate clones the program with the prefilter removed", "bounded equivalence only", "predicate kind is reported, never asserted"],
     )
 }
